@@ -574,6 +574,9 @@ class Analyzer:
                         st.off[d['n']] = (0, 0)
                         st.len.pop(d['n'], None)
                         st.buf[d['n']] = (0, 0)
+                        # "length == 0 implies offset == 0" holds from here until one of the two is stored to without the other
+                        # side of the implication being known
+                        st.acc = st.acc | {('zinv', d['n'])}
             elif k == 'addr':
                 tgt = ev.lhs
                 if tgt.get('k') == 'ref':
@@ -693,6 +696,8 @@ class Analyzer:
         lhs = ev.lhs
         b = self.buf_field(lhs, 'offset')
         if b:
+            if ('zinv', b.split('#')[0]) in st.acc and st.len.get(b.split('#')[0], 0) < 1 and not (op == '=' and const_val(a['r']) == 0):
+                st.acc = st.acc - {('zinv', b.split('#')[0])}
             self.kill_term(st, 'cur', b)
             # pointers held relative to B's cursor: the cursor moves, they do not
             cdelta = const_val(a['r']) if op in ('+=', '-=') else None
@@ -746,6 +751,8 @@ class Analyzer:
             return
         b = self.buf_field(lhs, 'length') if strip_casts(lhs).get('k') != 'ref' else None     # the one assignment that makes a local an
         if b:                                                                                  # alias of the field is not a store to it
+            if ('zinv', b) in st.acc and not (op == '=' and self.ieval(a['r'], st)[0] >= 1):
+                st.acc = st.acc - {('zinv', b)}
             if op == '=':
                 iv = self.ieval(a['r'], st)
                 st.len.pop(b, None)
@@ -995,6 +1002,8 @@ class Analyzer:
             a0 = strip_casts(a)
             b = self.buf_key(a0)
             if b is not None and self.u.ty(a['ty'])['c'] == 'ptr' and not self.u.ty(a['ty']).get('pointee_const'):
+                if ('zinv', b) in st.acc and st.len.get(b, 0) < 1:
+                    st.acc = st.acc - {('zinv', b)}
                 old = st.buf.get(b, TOP)
                 st.buf.pop(b, None)
                 st.off.pop(b, None)
@@ -1073,7 +1082,25 @@ class Analyzer:
             key = expr_str(L)
             if ('posoff', key, self.buf_field(Rr, 'length')) in st.acc:
                 st.acc = frozenset(f for f in st.acc if not (f[0] == 'posoff' and f[1] == key)) | {('posin', key)}
-        return self.refine_rel(L, op, Rr, st)
+        out = self.refine_rel(L, op, Rr, st)
+        if out is not None:
+            # positions that were stored as B.offset become positions inside B (or 0) once this edge settles it
+            for f in [f for f in out.acc if f[0] == 'posoff']:
+                B = f[2]
+                inside = out.buf.get(B, TOP)[0] >= 1
+                empty = False
+                # B.length <= 0 (that is: == 0, it is unsigned) together with "length == 0 implies offset == 0"
+                bl_l, bl_r = self.buf_field(L, 'length'), self.buf_field(Rr, 'length')
+                if ('zinv', B) in out.acc:
+                    if op == '<=' and bl_l == B and const_val(Rr) == 0:
+                        empty = True
+                    if op == '==' and ((bl_l == B and const_val(Rr) == 0) or (bl_r == B and const_val(L) == 0)):
+                        empty = True
+                if inside or empty:
+                    out.acc = frozenset(g for g in out.acc if g is not f) | {('posin', f[1])}
+                    self.pos_why[f[1] + '@refined'] = '%s.offset, which this edge shows to be %s' % (
+                        B, 'below %s.length' % B if inside else '0: the buffer is still as it was initialised')
+        return out
 
     def side(self, x, st):
         """Classify one side of a comparison."""
